@@ -1,3 +1,2 @@
 SPECIFICATION Spec
-INVARIANTS TypeOk
 CHECK_DEADLOCK FALSE
